@@ -9,6 +9,9 @@ CHECKS = {
  "C01": ("runtime monitor: order-law oracle over full comparison matrices of generated version pools (all triples), history/permutation metamorphism",
          "Exploration: every triple of each generated pool (9 systems, pools with respelled variants so equal pairs are common) is checked against the order laws on the live comparator; build-metadata, history-independence and sort-invariance observed on the same objects. Held-on-what-was-observed, not a proof.",
          "Generators decide reach; Maven pool restricted to the quantifier's Maven-Central shape.", "§6 C01"),
+ "C02": ("runtime differential monitor: all pairs of generated version pools compared by the library and by the ecosystem's own implementation (node-semver, pip packaging, Rust semver, x/mod, Maven ComparableVersion; two-formulation models for Gem::Version/NuGet)",
+         "Exploration: the live comparator is observed on every pair of reference-accepted pools and must give the reference's sign; the reference's normal form of every pool string must parse and compare equal. Reach = generators (respelled variants, hyphen/number/case/leading-zero identifiers, all PEP 440 spellings).",
+         "Adapters trusted after self-test; Gem/NuGet are transcribed models; Maven reference is 3.8.7 on the quantifier's shape (qualifier+0 and dot-introduced qualifiers excluded, see DESIGN §3).", "§6 C02"),
 }
 NOT_YET = {}
 
